@@ -31,6 +31,18 @@ FOUND = ["found_name", "found_name_ref", "found_type_name", "found_label"]
 SK = "syntax::kind::SyntaxKind"
 
 
+def found_functions(F):
+    """the methods of FindUsages that report a hit: they invoke the sink (a `&mut dyn FnMut(FileId, TextRange) -> bool`
+    parameter). Four on the reviewed tree (found_name, found_name_ref, found_type_name, found_label)."""
+    out = []
+    for p, f in sorted(F.fns.items()):
+        if p.startswith("ide::def::search::FindUsages::") and "{closure" not in p and f.blocks and \
+                any("FnMut" in str(i_) for i_ in f.d.get("inputs", [])) and \
+                any("fnop" in t or (callee_def(t) or "").endswith("FnMut::call_mut") or (callee(t) or "").endswith("call_mut") for b, t in f.calls()):
+            out.append(p.rsplit("::", 1)[-1])
+    return out or FOUND
+
+
 def cast_types(F, fn):
     """AST node types a function tries to cast a node to (match_ast! arms)"""
     out = []
@@ -50,7 +62,7 @@ def run(F, res, tier):
         calls = [callee(t) for ff in fs for b, t in ff.calls()]
         res.ob("R1", "feature/" + p.rsplit("::", 1)[-1], "%s classifies the node under the cursor with classify_node" % p.rsplit("::", 1)[-1],
                CLASSIFY in calls, where=f.loc(), how="calls classify_node: %s" % (CLASSIFY in calls))
-    for n in FOUND:
+    for n in found_functions(F):
         f = F.fn("ide::def::search::FindUsages::" + n)
         fs = [F.fns[x] for x in F.with_helpers(f.path, depth=1, stop=[SEM])]
         calls = [callee(t) for ff in fs for b, t in ff.calls()]
